@@ -4,6 +4,8 @@ Tie: fault injection.  For each generated communicating program (harness.cpp int
   step 1  fault-free run -> the distinct event dates;
   step 2  one run per (resource in hosts+links, date in {event date, just before, just after}), the failure being issued
           by a controller actor on a host that never fails or by a state profile, + seeded pairs of failures (incl. turn_on);
+  second program class (`M:ptask`, host model ptask_L07): parallel executions on host lists; every parallel execution is hit
+          on the first, a middle and the last host of its list at its start / middle / end dates (`ptask_fault_points`);
 every log is replayed on the Lean model (trace acceptance) and the monitor `failureOk` is evaluated on it (Driver.lean)."""
 import json
 import os
@@ -117,8 +119,115 @@ def gen_program(rng, idx):
     return {"nh": nh, "nl": nl, "routes": routes, "hosts": hosts, "ops": ops}
 
 
+def gen_ptask_program(rng, idx):
+    """Program class `M:ptask` (host model ptask_L07): parallel executions on host LISTS (`Exec::set_hosts`), blocking
+    (`pexec`) or asynchronous (`ipexec` … wait / wait_any / test), mixed with one-host executions and sleeps; no
+    communication (under ptask_L07 a comm is an L07Action spanning both cpus: not what Model.lean describes), no link.
+    Most actors live on host 0/1 and most host lists avoid the issuer's host, so that the issuer survives the failure of
+    any host of the list; the rank of a host in the list is random (the list is a shuffle)."""
+    nh = rng.range(3, 5)
+    na = rng.range(1, 3)
+    hosts = [rng.choice([0, 0, 0, 1]) if rng.chance(4, 5) else rng.below(nh) for _ in range(na)]
+    ops = [[] for _ in range(na)]
+    slot = [0] * na
+    pending = [[] for _ in range(na)]
+
+    def flush_waits(a, force=False):
+        if pending[a] and (force or rng.chance(1, 2 if len(pending[a]) >= 2 else 3)):
+            if len(pending[a]) >= 2 and rng.chance(1, 2):
+                ops[a].append("wany." + ".".join(str(x) for x in pending[a]))
+                if rng.chance(1, 2):
+                    for x in pending[a]:
+                        ops[a].append("wait.%d" % x)
+                    pending[a] = []
+            else:
+                x = pending[a].pop(0)
+                if rng.chance(1, 4):
+                    ops[a].append("test.%d" % x)
+                ops[a].append("wait.%d" % x)
+
+    def host_list(a):
+        others = [h for h in range(nh) if h != hosts[a]]
+        pool = others if rng.chance(3, 4) else list(range(nh))
+        rng.shuffle(pool)
+        n = rng.range(2, len(pool)) if len(pool) >= 2 else len(pool)
+        if rng.chance(1, 8):
+            n = 1                                     # a one-element list goes through CpuL07::execution_start
+        return pool[:n]
+
+    npar = 0
+    for it in range(rng.range(2, 5)):
+        a = rng.below(na)
+        kind = rng.below(8)
+        if kind <= 4 or (it == 0 and npar == 0):     # a parallel execution
+            hl = host_list(a)
+            fl = [rng.choice([0, 256, 512, 1024, 2048]) for _ in hl]
+            if not any(fl) and not rng.chance(1, 8):  # all-zero flops (action born with remains 0) only now and then
+                fl[rng.below(len(fl))] = rng.choice([512, 1024])
+            spec = "%s.%s" % ("-".join(map(str, hl)), "-".join(map(str, fl)))
+            z = ".z" if rng.chance(1, 2) else ""      # explicit all-zero bytes matrix / no matrix
+            if rng.chance(1, 2):
+                ops[a].append("ipexec.%s.%d%s" % (spec, slot[a], z))
+                pending[a].append(slot[a])
+                slot[a] += 1
+            else:
+                ops[a].append("pexec.%s%s" % (spec, z))
+            npar += 1
+        elif kind <= 5:                               # a one-host execution, often remote
+            h = rng.below(nh)
+            fl = rng.choice([256, 512, 1024])
+            if rng.chance(1, 2):
+                ops[a].append("iexec.%d.%d.%d" % (h, fl, slot[a]))
+                pending[a].append(slot[a])
+                slot[a] += 1
+            else:
+                ops[a].append("exec.%d.%d" % (h, fl))
+        else:
+            ops[a].append("sleep.%d" % rng.choice([1, 4, 8, 16]))
+        for b in range(na):
+            flush_waits(b)
+    for a in range(na):
+        while pending[a]:
+            flush_waits(a, True)
+    return {"ptask": True, "nh": nh, "nl": 0, "routes": [], "hosts": hosts, "ops": ops}
+
+
+def ptask_fault_points(p, impl, rng, tier):
+    """every parallel execution of the program x the first, a middle and the last host of its list x the dates
+    {start, just after, middle, just before the end, end, just after} read from the fault-free log"""
+    issue, done = {}, {}
+    for l in impl.split(" | "):
+        tok = l.split()
+        if len(tok) >= 4 and tok[2] == "issue" and tok[1].startswith("a"):
+            issue[(int(tok[1][1:]), int(tok[3]))] = Fraction(float.fromhex(tok[0]))
+        elif len(tok) >= 4 and tok[1] == "done":
+            a, k = tok[2][1:].split(".")
+            done[(int(a), int(k))] = Fraction(float.fromhex(tok[0]))
+    cases = []
+    for a, ol in enumerate(p["ops"]):
+        for k, o in enumerate(ol):
+            f = o.split(".")
+            if f[0] not in ("pexec", "ipexec") or (a, k) not in issue or (a, k) not in done:
+                continue
+            hl = [int(x) for x in f[1].split("-")]
+            t0, t1 = issue[(a, k)], done[(a, k)]
+            pick = []
+            for h in (hl[0], hl[len(hl) // 2], hl[-1]):
+                if h not in pick:
+                    pick.append(h)
+            for h in pick:
+                for t in (t0, t0 + EPS, (t0 + t1) / 2, t1 - EPS, t1, t1 + EPS):
+                    if t > 0:
+                        cases.append(("h%d" % h, t))
+    cases = sorted(set(cases))
+    if tier == "quick" and len(cases) > 30:
+        rng.shuffle(cases)
+        cases = sorted(cases[:30])
+    return [[("c" if i % 3 else "p", "off", r, t)] for i, (r, t) in enumerate(cases)]
+
+
 def prog_str(p):
-    t = ["run", "H%d" % p["nh"], "L%d" % p["nl"]]
+    t = ["run"] + (["M:ptask"] if p.get("ptask") else []) + ["H%d" % p["nh"], "L%d" % p["nl"]]
     for i, j, ls in p["routes"]:
         t.append("r:%d:%d:%s" % (i, j, ".".join(map(str, ls))))
     for h, o in zip(p["hosts"], p["ops"]):
@@ -158,10 +267,12 @@ def fault_points(p, dates, rng, tier):
             cases.append([("c" if k % 2 else "p", "off", r, t)])
     else:
         rng.shuffle(pts)
-        for k, (r, t) in enumerate(pts[:28]):
+        for k, (r, t) in enumerate(pts[:(10 if p.get("ptask") else 28)]):
             cases.append([("c" if k % 3 else "p", "off", r, t)])
     # pairs of failures, and failure followed by turn_on (then a later comm can succeed)
     npairs = 5 if tier == "quick" else 16
+    if p.get("ptask"):
+        npairs = 3 if tier == "quick" else 8
     for k in range(npairs):
         if not pts:
             break
@@ -277,6 +388,10 @@ def run(ctx):
         if ctx.broken:
             nprog *= 4        # search mode: proof or build broke, look harder for a failing input
         progs = [gen_program(rng.fork(i), i) for i in range(nprog)]
+        # second program class: parallel executions under the ptask_L07 host model (its own stream: the programs of the
+        # first class are the same as before this class existed)
+        nptask = max(4, (nprog * 2) // 5)
+        progs += [gen_ptask_program(rng.fork(500000 + i), i) for i in range(nptask)]
         base = [prog_str(p) for p in progs]
         out = harness(base)
         if out is None:
@@ -287,9 +402,13 @@ def run(ctx):
             queries.append(q)
             if "CRASH" in impl or "HANG" in impl:
                 continue
-            for fs in fault_points(p, log_dates(impl), rng.fork(1000 + i), ctx.tier):
+            fps = fault_points(p, log_dates(impl), rng.fork(1000 + i), ctx.tier)
+            if p.get("ptask"):
+                fps = ptask_fault_points(p, impl, rng.fork(2000 + i), ctx.tier) + fps
+            for fs in fps:
                 queries.append(q + " " + fault_str(fs))
         ctx.cov["programs"] = nprog
+        ctx.cov["ptask_programs"] = nptask
     out = harness(queries)
     if out is None:
         return
